@@ -125,6 +125,11 @@ def sum_cases():
         cases += [f"sum(range({a}, {b}))", f"sum(range({b}))" if a == 0 else f"sum(range({a}, {b}, 1))", f"sum(range({a}, {b}, 2))",
                   f"sum(x for x in range({a}, {b}))", f"sum([2 * x for x in range({a}, {b})])", f"sum(x * x for x in range({a}, {b}))",
                   f"sum(1 for x in range({a}, {b}))", f"sum([x + 1 for x in range({a}, {b})])"]
+    for a, b in [(-3, 0), (-5, -2), (0, 10), (1, 10), (2, 3), (10, 0), (4, 4)]:
+        for st in (2, 3, -3):
+            cases += [f"sum(x for x in range({a}, {b}, {st}))", f"sum(x * x for x in range({a}, {b}, {st}))", f"sum([x + 1 for x in range({a}, {b}, {st})])"]
+        cases += [f"sum(range({a}, {b}))", f"sum(x for x in range({a}, {b}))"] if a <= b else []
+    cases += ["sum(x * a for a in range(10, 19, 2) for x in range(1, 9, 5))", "sum(x for x in range(1, n, 3))", "sum(x * x for x in range(0, n, 2))"]
     cases += ["sum(range(5, 3))", "sum(range(n))", "sum(range(0, n))", "sum(x for x in range(n))", "sum(range(2, n))", "sum([n * x for x in range(3)])"]
     return cases
 
